@@ -556,7 +556,8 @@ Definition run_resp (c impl : sexp) : sexp :=
               verdict "c15_no_panic" (Z.eqb (sx_int (sx_nth 5 impl)) 0) ];
         A (L cls);
         Lst [ verdict "wf_history" wf; verdict "writer_fails" failing; verdict "encoded" comp;
-              verdict "through_container" (Z.eqb (sx_int (sx_nth 4 c)) 1) ] ].
+              verdict "through_container" (Z.eqb (sx_int (sx_nth 4 c)) 1);
+              verdict "plain_handler_with_filter" (Z.eqb (sx_int (sx_nth 4 c)) 2) ] ].
 
 (* ---- domain "pool" (C13) ----
    case: (oracles provider cap mode ops clients rounds); impl: (trace blocked handed-out-while-held released-unknown wrong-bodies) *)
